@@ -287,8 +287,8 @@ func TestVerif_C17(t *testing.T) {
 	run.Assume("peer.MockPeers / config.MockConfig deliver the list to the sharder unchanged; the real FilePeers is used for the file family")
 	run.Assume("only sharders that see the same multiset of addresses are compared (the property's premise)")
 
-	run.Cases("permutations", run.N(500, 25000), func(i int, rng *verifkit.Rand) { c17PermCase(run, i, rng) })
-	run.Cases("filepeers", run.N(150, 6000), func(i int, rng *verifkit.Rand) { c17FileCase(run, i, rng) })
+	run.Cases("permutations", run.N(500, 100000), func(i int, rng *verifkit.Rand) { c17PermCase(run, i, rng) })
+	run.Cases("filepeers", run.N(150, 20000), func(i int, rng *verifkit.Rand) { c17FileCase(run, i, rng) })
 }
 
 func c17PermCase(run *verifkit.Run, i int, rng *verifkit.Rand) {
